@@ -337,7 +337,15 @@ func (c *ctx) tkNewRun(u *universe, w *hWorld, tag string, mons []monitor, b *tk
 
 // fork continues on a clone of the world (no history: the clone does not start from an empty message pool)
 func (r *tkRun) fork(tag string) *tkRun {
-	return &tkRun{c: r.c, u: r.u, w: tkCloneWorld(r.w), tag: tag, mons: r.mons, budget: r.budget, hist: append([]string(nil), r.hist...)}
+	n := &tkRun{c: r.c, u: r.u, w: tkCloneWorld(r.w), tag: tag, mons: r.mons, budget: r.budget, hist: append([]string(nil), r.hist...)}
+	if p, ok := c01Prov[r.w]; ok {
+		q := map[int]bool{}
+		for k, v := range p {
+			q[k] = v
+		}
+		c01Prov[n.w] = q
+	}
+	return n
 }
 
 func (r *tkRun) do(op *worldOp) *stepResult {
@@ -487,6 +495,9 @@ func tkRejectReasons(w *hWorld, pre map[string]*hAccount, cs *callSpec, refund b
 		k := it.key()
 		raw := tkRaw(pre, cs.Rcpt, k)
 		cur := tkEntry(pre, cs.Rcpt, k)
+		if !refund && (tkPausedOn(pre, string(it.Tok)) || tkPausedOn(pre, k)) {
+			add("paused")
+		}
 		if len(raw) > 0 && cur == nil {
 			add("undecodable-destination-entry")
 			continue
@@ -497,9 +508,6 @@ func tkRejectReasons(w *hWorld, pre map[string]*hAccount, cs *callSpec, refund b
 			}
 			if it.NFT && tkFrozenProps(it.Props) {
 				add("frozen-payload")
-			}
-			if tkPausedOn(pre, string(it.Tok)) || tkPausedOn(pre, k) {
-				add("paused")
 			}
 		}
 		if it.NFT {
@@ -522,12 +530,28 @@ func tkRejectReasons(w *hWorld, pre map[string]*hAccount, cs *callSpec, refund b
 	return rs
 }
 
+// c01Prov: per world, the ids of the messages emitted by successful sender-side executions of user transactions
+// (the messages the property speaks about; a message emitted by any other execution — e.g. a call executed on
+// behalf of a metachain caller — is delivered without being judged)
+var c01Prov = map[*hWorld]map[int]bool{}
+
 func monC01(c *ctx, w *hWorld, pre *worldSnap, sr *stepResult, hist []string) {
 	cs := sr.Call
 	if !tkTransferFns[cs.Fn] || sr.Op.Kind == opRedeliver {
 		return
 	}
 	class := tkOpClass(w, sr)
+	if class == "origin" && sr.Res.Status == 0 {
+		for _, m := range sr.NewMsgs {
+			if c01Prov[w] == nil {
+				c01Prov[w] = map[int]bool{}
+			}
+			c01Prov[w][m.ID] = true
+		}
+	}
+	if (class == "deliver" || class == "refund") && !c01Prov[w][sr.Op.ID] {
+		class = "foreign-message"
+	}
 	c.count("c01/" + class + "/" + cs.Fn + "/" + statusName(sr.Res.Status))
 	if sr.Res.Status != 0 {
 		if w.digest() != pre.Digest {
@@ -537,7 +561,11 @@ func monC01(c *ctx, w *hWorld, pre *worldSnap, sr *stepResult, hist []string) {
 		case "deliver":
 			rs := tkRejectReasons(w, sr.Res.Pre, cs, false)
 			if bytes.Equal(cs.Rcpt, vmcommon.SystemAccountAddress) {
-				c.count("c01/deliver-rejected/destination-is-system-account(excluded)")
+				why := "no-admissible-reason"
+				if len(rs) > 0 {
+					why = rs[0]
+				}
+				c.count("c01/deliver-rejected/destination-is-system-account(excluded)/" + why)
 			} else if len(rs) == 0 {
 				c.fail("monitor", "delivery-rejected/"+cs.Fn+"/no-admissible-reason",
 					fmt.Sprintf("%s: the destination shard refused a message emitted by a successful sender-side execution (%v) although the destination is not frozen, the token not paused, the account payable and no other NFT / entry type sits under the key", cs.Fn, sr.Res.Err),
@@ -561,7 +589,7 @@ func monC01(c *ctx, w *hWorld, pre *worldSnap, sr *stepResult, hist []string) {
 		}
 		return
 	}
-	if class == "other" {
+	if class == "other" || class == "foreign-message" {
 		return
 	}
 	req, ok := tkParse(cs)
@@ -881,6 +909,38 @@ func c01Orders(c *ctx, u *universe, b *tkBudget) {
 	c.count("c01/orders/permutations")
 }
 
+// c01SystemAccountDest: the system-account address as destination of a token whose pause flag was set and cleared on
+// that shard (the flag shares the key of the balance entry: DESIGN F8 family).  The delivery is refused although the
+// token is not paused; excluded from the liveness judgement, counted, and the refund must restore the sender.
+func c01SystemAccountDest(c *ctx, u *universe, b *tkBudget) {
+	for _, flag := range []string{"never-flagged", "paused-and-unpaused", "paused"} {
+		w := u.stdWorld(2, 1, distinctGas(27, 3))
+		u.populate(w)
+		r := c.tkNewRun(u, w, "system-account-destination/"+flag, []monitor{monC01}, b, true)
+		if flag != "never-flagged" {
+			r.must(r.sysOn(1, u.SYS, "ESDTPause", u.Fung[0]), "pause")
+		}
+		if flag == "paused-and-unpaused" {
+			r.must(r.sysOn(1, u.SYS, "ESDTUnPause", u.Fung[0]), "unpause")
+		}
+		before := tkAcctBalances(w, u.U[0])
+		sr := r.must(r.tx(u.U[0], u.SYS, "ESDTTransfer", bigGas, u.Fung[0], be(10)), "transfer to the system-account address")
+		d := r.deliver(sr.NewMsgs[0])
+		out := "delivered"
+		if !tkOK(d) {
+			out = "refused"
+			if f := r.refund(sr.NewMsgs[0]); tkOK(f) && tkFirstDiff(before, tkAcctBalances(w, u.U[0])) == "" {
+				out += "-refunded"
+			} else {
+				c.fail("monitor", "refund-not-restoring/ESDTTransfer", "refund of a transfer refused by the system-account address does not restore the sender",
+					map[string]interface{}{"scenario": r.tag, "history": histReplay(r.hist)})
+			}
+		}
+		c.count("c01/system-account-destination/" + flag + "/" + out)
+		r.emitHist("C01 scenario " + r.tag)
+	}
+}
+
 func c01Tune(g *gen) {
 	g.wTransfer, g.wDeliver, g.wSystem, g.wSupply, g.wHostile, g.wAccount = 50, 26, 9, 8, 7, 0
 }
@@ -926,10 +986,11 @@ func init() {
 		}
 		c01AliasFamily(c, u, &tkBudget{max: 60})
 		c01Orders(c, u, &tkBudget{max: 40})
+		c01SystemAccountDest(c, u, &tkBudget{max: 20})
 		c.rep.Extra = map[string]interface{}{"scenario_outcomes": extra, "scenarios": idx}
 		n, ops, prob, max := 8, 250, 2, 1000
 		if !quick {
-			n, ops, prob, max = 40, 500, 2, 9000
+			n, ops, prob, max = 100, 600, 6, 10000
 		}
 		c.walk(u, walkOpts{Worlds: n, Ops: ops, Proj: proj, Monitors: []monitor{monC01}, Tune: c01Tune, EmitProb: prob, MaxCases: max, Hist: true})
 	}
